@@ -3,7 +3,7 @@
    L1 = VLog.v (key table + append-only value log with old links: the mechanism shared by ART and RBT). *)
 From Verif Require Import MemBuf.Model MemBuf.Art MemBuf.ProofsArt MemBuf.ProofsArtIns MemBuf.ProofsArtIns2
   MemBuf.ProofsArtMap MemBuf.ProofsArtL1 MemBuf.ProofsArtSeek MemBuf.ProofsArtRange MemBuf.Batched MemBuf.ProofsBatched MemBuf.ProofsBatchedL0 MemBuf.ProofsSeq MemBuf.BatchedUse MemBuf.FlagPreds MemBuf.ProofsFlagDom MemBuf.ProofsKMap MemBuf.ProofsLog MemBuf.ProofsSim MemBuf.ProofsObs
-  MemBuf.ProofsSet MemBuf.ProofsRevert MemBuf.ProofsStep MemBuf.ProofsProps.
+  MemBuf.ProofsSet MemBuf.ProofsRevert MemBuf.ProofsStep MemBuf.ProofsProps MemBuf.ProofsTop.
 
 (* 1. Refinement.  Over ALL operation sequences — mutators and observers, valid and invalid handles /
    tokens, reverts to ANY live checkpoint (taken inside or outside staging levels, older than a released
@@ -18,7 +18,7 @@ From Verif Require Import MemBuf.Model MemBuf.Art MemBuf.ProofsArt MemBuf.Proofs
 Theorem C08_L1_refines_L0 :
   forall ops : list op,
     run1 init1 ops = run0 init0 ops /\ Sim (exec1 init1 ops) (exec0 init0 ops).
-Proof. intros ops. exact (run_refines ops init1 init0 sim_init). Qed.
+Proof. exact C08_L1_refines_L0_proof. Qed.
 Print Assumptions C08_L1_refines_L0.
 
 (* one step, from any related pair of states *)
@@ -32,12 +32,10 @@ Print Assumptions C08_step_commutes.
    exactly what the reference gives by restoring the saved copy of the level. *)
 Theorem C08_revert_checkpoint :
   forall ops : list op, run1 init1 ops = run0 init0 ops.
-Proof. intros ops. exact (proj1 (C08_L1_refines_L0 ops)). Qed.
+Proof. exact C08_revert_checkpoint_proof. Qed.
 Print Assumptions C08_revert_checkpoint.
 
 (* the old witness, now a regression: the revert undoes the same-length overwrite, also inside a stage *)
-Definition f03b_witness : list op :=
-  [OSet [120] [97; 97] []; OCheckpoint; OSet [120] [98; 98] []; ORevert 0%nat; OGet [120]].
 Example f03b_fixed : run1 init1 f03b_witness = [RUnit; RNat 0; RUnit; RUnit; RVal (Some [97; 97])].
 Proof. vm_compute. reflexivity. Qed.
 Example f03b_fixed_in_stage :
@@ -55,20 +53,14 @@ Theorem C08_snapshot_ignores_staged :
   forall s o, (0 < depth0 s)%nat -> (0 < depth0 (fst (step0 s o)))%nat ->
     base0 (fst (step0 s o)) = base0 s /\
     (forall k, obs0 (OSnapGet k) (fst (step0 s o)) = obs0 (OSnapGet k) s).
-Proof.
-  intros s o H H'. pose proof (step0_frozen 0 s o H H') as F. unfold below in F. assert (F2 : base0 (fst (step0 s o)) = base0 s) by (inversion F; reflexivity).
-  split; [exact F2|]. intros k. cbn [obs0]. rewrite F2. reflexivity.
-Qed.
+Proof. exact C08_snapshot_ignores_staged_proof. Qed.
 Print Assumptions C08_snapshot_ignores_staged.
 
 Theorem C08_snapshot_iter_is_base :
   forall ops lo hi k v,
     let s0 := exec0 init0 ops in
     In (k, v) (iter_list (base0 s0) lo hi (kf0 s0)) <-> (kfind k (base0 s0) = Some v /\ in_bounds lo hi k = true).
-Proof.
-  intros ops lo hi k v s0. destruct (C08_L1_refines_L0 ops) as [_ HS].
-  exact (snapshot_iter_is_base _ _ lo hi k v HS).
-Qed.
+Proof. exact C08_snapshot_iter_is_base_proof. Qed.
 Print Assumptions C08_snapshot_iter_is_base.
 
 (* 4. Bounded iteration, both directions, over ALL sequences (no ghost hypothesis): the forward result
@@ -82,23 +74,13 @@ Theorem C08_iter_bounds :
     ksorted fwd /\
     (forall k v, In (k, v) fwd <->
        exists ent, In (k, ent) (keys1 s) /\ cur_val s ent = Some v /\ in_bounds lo hi k = true).
-Proof.
-  intros ops rev lo hi s fwd. split; [reflexivity|]. split.
-  - unfold fwd. rewrite iter1_gen. apply iter_gen_sorted. apply exec1_sorted. exact I.
-  - intros k v. unfold fwd. rewrite iter1_gen. exact (iter_gen_in (fun _ e => cur_val s e) lo hi (keys1 s) k v).
-Qed.
+Proof. exact C08_iter_bounds_proof. Qed.
 Print Assumptions C08_iter_bounds.
 
 (* what "inside the bounds" means *)
 Theorem C08_in_bounds_spec : forall lo hi k,
   in_bounds lo hi k = true <-> (lo = [] \/ lex_cmp lo k <> Gt) /\ (hi = [] \/ lex_cmp k hi = Lt).
-Proof.
-  intros lo hi k. unfold in_bounds, lex_leb, lex_ltb. rewrite andb_true_iff. split; intros [A B]; split.
-  - destruct lo; [left; reflexivity|right]. destruct (lex_cmp (n :: lo) k); congruence.
-  - destruct hi; [left; reflexivity|right]. destruct (lex_cmp k (n :: hi)); congruence.
-  - destruct lo; [reflexivity|]. destruct A as [A|A]; [discriminate|]. destruct (lex_cmp (n :: lo) k); congruence.
-  - destruct hi; [reflexivity|]. destruct B as [B|B]; [discriminate|]. rewrite B. reflexivity.
-Qed.
+Proof. exact C08_in_bounds_spec_proof. Qed.
 Print Assumptions C08_in_bounds_spec.
 
 (* 5. Limits: rejected exactly at the limit; a key or an entry that is too large changes nothing (not even
@@ -112,15 +94,7 @@ Theorem C08_limits :
        let s2 := setvalue1 k v (touch1 k (apply_flag_ops (flags_of1 k s) (DelNeedConstraintCheckInPrewrite :: fops)) s) in
        set1 k v fops s = (s2, if (blimit1 s <? size1 s2)%N then RErr ETxnTooLarge else RUnit) /\
        wseq1 s2 = (wseq1 s + 1)%N).
-Proof.
-  intros s k v fops. unfold set1, updflags1. repeat split.
-  - apply N.ltb_lt in H. rewrite H. reflexivity.
-  - apply N.ltb_lt in H. rewrite H. reflexivity.
-  - intros H1 H2. apply N.ltb_ge in H1. apply N.ltb_lt in H2. rewrite H1, H2. reflexivity.
-  - apply N.ltb_ge in H. apply N.ltb_ge in H0. rewrite H, H0. rewrite setvalue1_blimit, touch1_blimit. reflexivity.
-  - unfold setvalue1. set (t := touch1 _ _ s). change (wseq1 s + 1)%N with (wseq1 t).
-    destruct (kfind k (keys1 t)); [|reflexivity]. destruct (k_head k0); [|reflexivity]. destruct (_ && _); reflexivity.
-Qed.
+Proof. exact C08_limits_proof. Qed.
 Print Assumptions C08_limits.
 
 (* 6. Stack discipline (on the reference model; carried to L1 by C08_L1_refines_L0).
@@ -136,10 +110,7 @@ Theorem C08_cleanup_restores :
     stages0 s3 = stages0 s /\ base0 s3 = base0 s /\ all0 s3 = all0 s /\
     (forall k p, obs0 (OGet k) s3 = obs0 (OGet k) s /\ obs0 (OSnapGet k) s3 = obs0 (OSnapGet k) s /\
                  (kfind k (all0 s) <> None -> obs0 (OHist k p) s3 = obs0 (OHist k p) s)).
-Proof.
-  intros s ops s1 Hs Hd s3. destruct (cleanup_restores s ops Hs Hd) as (E1 & E2 & E3). fold s1 in E1, E2, E3. fold s3 in E1, E2, E3.
-  repeat split; try assumption; cbn [obs0]; rewrite ?E3, ?E2; reflexivity.
-Qed.
+Proof. exact C08_cleanup_restores_proof. Qed.
 Print Assumptions C08_cleanup_restores.
 
 (* Release: merging the top level into the one below changes no value, flag, count, size, iteration or history *)
@@ -150,7 +121,7 @@ Theorem C08_release_keeps :
         obs0 o (fst (release0 h s)) = obs0 o s
     | _ => True
     end.
-Proof. intros s h o. destruct (release0_keeps h s) as [Ea Ek]. apply obs0_values_ext; assumption. Qed.
+Proof. exact C08_release_keeps_proof. Qed.
 Print Assumptions C08_release_keeps.
 
 (* 7. L2, the shape of the radix tree (Art.v; compared node by node with the real tree on every run).
@@ -166,25 +137,21 @@ Print Assumptions C08_L2_search_sound.
 (* search finds every key stored in a well-formed tree: lookup = membership in the in-order traversal *)
 Theorem C08_L2_lookup_is_membership :
   forall o k, wf_root o -> (lookup k o = true <-> In k (keys_of_tree o)).
-Proof.
-  intros [t|] k H; cbn [lookup keys_of_tree]; [|split; [discriminate|contradiction]]. split.
-  - destruct (search k 0 t) eqn:E; [|discriminate]. intros _. exact (proj2 (proj1 search_sound_both _ _ _ _ E)).
-  - intros Hin. change 0%nat with (@length N []). rewrite (proj1 search_complete_both t [] k H Hin). reflexivity.
-Qed.
+Proof. exact C08_L2_lookup_is_membership_proof. Qed.
 Print Assumptions C08_L2_lookup_is_membership.
 
 (* the in-order traversal (in-place leaf first, then the children by byte) is strictly ascending in bytes.Compare
    order: it IS the sorted key table that L1 uses *)
 Theorem C08_L2_inorder_sorted :
   forall o, wf_root o -> lsorted (keys_of_tree o).
-Proof. intros [t|] H; [exact (proj1 inorder_sorted_both t [] H)|exact I]. Qed.
+Proof. exact C08_L2_inorder_sorted_proof. Qed.
 Print Assumptions C08_L2_inorder_sorted.
 
 (* the lower-bound seek returns the first key of the in-order traversal that is >= the bound (with
    C08_L2_inorder_sorted: the smallest such key) *)
 Theorem C08_L2_seek_lower_bound :
   forall lo t, seek_ge lo t = find (fun k => lex_leb lo k) (inorder t).
-Proof. intros lo. exact (proj1 (seek_ge_spec_both lo)). Qed.
+Proof. exact C08_L2_seek_lower_bound_proof. Qed.
 Print Assumptions C08_L2_seek_lower_bound.
 
 (* baseIter.seek (the descent that positions every bounded iterator: matchDeep against the path segment, "all
@@ -195,7 +162,7 @@ Print Assumptions C08_L2_seek_lower_bound.
    longer than every key *)
 Theorem C08_L2_seek_rank_counts_smaller_keys :
   forall t lo, wf [] t -> seek_rank lo 0 t = length (filter (fun k => lex_ltb k lo) (inorder t)).
-Proof. intros t lo W. exact (proj1 seek_rank_spec_both t [] lo W). Qed.
+Proof. exact C08_L2_seek_rank_counts_smaller_keys_proof. Qed.
 Print Assumptions C08_L2_seek_rank_counts_smaller_keys.
 
 Theorem C08_L2_seek_starts_at_lower_bound :
@@ -237,10 +204,7 @@ Theorem C08_L2_is_map :
     wf_root t /\
     keys_of_tree t = map fst (fold_left (fun m kv => kupsert (fst kv) (snd kv) m) vs []) /\
     forall k, lookup k t = true <-> In k (map fst vs).
-Proof.
-  intros A vs t. destruct (build_ok (map fst vs)) as [W M]. split; [exact W|]. split; [exact (tree_is_table vs)|].
-  intros k. unfold t. rewrite (C08_L2_lookup_is_membership _ k W). apply M.
-Qed.
+Proof. exact C08_L2_is_map_proof. Qed.
 Print Assumptions C08_L2_is_map.
 
 (* L2 indexes L1: after ANY operation sequence the key column of L1's table (which L1 searches and iterates) is
@@ -251,7 +215,6 @@ Theorem C08_L2_indexes_L1 :
 Proof. exact tree_indexes_table. Qed.
 Print Assumptions C08_L2_indexes_L1.
 
-Definition l2_ex_tree : option art := Eval vm_compute in build [[1%N; 2%N]; [1%N]; [1%N; 3%N]].
 Example l2_wf_nonvacuous : wf_root l2_ex_tree.
 Proof.
   unfold l2_ex_tree. cbn [wf_root wf wf_ch ch_lb].
@@ -278,10 +241,7 @@ Theorem C08_batched_snapshot_iter :
   forall ops rv lo hi,
     let s0 := exec0 init0 ops in
     RKVs (batched (S (length (snapshot0 s0))) (snapshot0 s0) rv lo hi) = obs0 (OSnapIter rv lo hi) s0.
-Proof.
-  intros ops rv lo hi s0. destruct (C08_L1_refines_L0 ops) as [_ HS]. cbn [obs0]. f_equal.
-  exact (batched_snapshot_ok _ _ rv lo hi HS).
-Qed.
+Proof. exact C08_batched_snapshot_iter_proof. Qed.
 Print Assumptions C08_batched_snapshot_iter.
 
 (* why lastKey ++ [0x00]: it is the immediate successor of lastKey in bytes.Compare order *)
@@ -291,8 +251,6 @@ Print Assumptions C08_resume_key_is_successor.
 
 (* batches really happen: 40 keys (more than the first batch of 32) incl. the empty key and a key that is a prefix
    of its successor *)
-Definition batch_snap : kmap val :=
-  ([], [1%N]) :: ([0%N], [2%N]) :: ([0%N; 0%N], [3%N]) :: map (fun i => ([N.of_nat i], [9%N])) (seq 1 37).
 Example batch_snap_sorted : ksorted batch_snap.
 Proof. vm_compute. repeat split; repeat constructor. Qed.
 Example batched_two_batches_fwd : fwd 41 batch_snap [] [] 32 = batch_snap /\ length batch_snap = 40%nat.
@@ -312,7 +270,7 @@ Theorem C08_write_seq_guards_iterators :
     | OGet _ | OGetFlags _ | OIter _ _ _ | OIterFlags _ _ _ | OHist _ _ => obs1 o' (fst (step1 s o)) = obs1 o' s
     | _ => True
     end.
-Proof. intros s o o' H. destruct (step1_wseq_same s o H) as [E1 E2]. apply obs1_ext; assumption. Qed.
+Proof. exact C08_write_seq_guards_iterators_proof. Qed.
 Print Assumptions C08_write_seq_guards_iterators.
 
 (* every reachable state, any operation (staged writes, nested stages, checkpoints, reverts inside a stage ...):
@@ -323,10 +281,7 @@ Theorem C08_snapshot_seq_guards_snapshots :
     sseq1 (fst (step1 s o)) = sseq1 s ->
     (forall rv lo hi, obs1 (OSnapIter rv lo hi) (fst (step1 s o)) = obs1 (OSnapIter rv lo hi) s) /\
     (forall k, obs1 (OSnapGet k) (fst (step1 s o)) = obs1 (OSnapGet k) s).
-Proof.
-  intros ops o s H. destruct (C08_L1_refines_L0 ops) as [_ HS].
-  exact (snapshot_obs_same _ _ o HS (step1_sseq_same _ _ H)).
-Qed.
+Proof. exact C08_snapshot_seq_guards_snapshots_proof. Qed.
 Print Assumptions C08_snapshot_seq_guards_snapshots.
 
 (* hence a batched snapshot iterator opened before such an operation is the iterator one would open after it:
@@ -336,10 +291,7 @@ Theorem C08_batched_iterator_survives_writes :
     let s := exec1 init1 ops in
     sseq1 (fst (step1 s o)) = sseq1 s ->
     bopen1 (fst (step1 s o)) rv lo hi = bopen1 s rv lo hi.
-Proof.
-  intros ops o rv lo hi s H. destruct (C08_snapshot_seq_guards_snapshots ops o H) as [HI _].
-  specialize (HI rv lo hi). cbn [obs1] in HI. unfold bopen1, snap_list1. rewrite H. f_equal. inversion HI as [H1]. exact H1.
-Qed.
+Proof. exact C08_batched_iterator_survives_writes_proof. Qed.
 Print Assumptions C08_batched_iterator_survives_writes.
 
 (* both hypotheses are satisfiable by state-changing operations, and both numbers do move on real writes *)
@@ -356,12 +308,12 @@ Proof. vm_compute. repeat split; discriminate. Qed.
    (so the word can share a uint16 with ART's bit 15 and RBT's bits 14/15). *)
 Theorem C08_flags_domain_closed :
   forall f o, (f < flag_limit)%N -> (apply_flag_op f o < flag_limit)%N /\ (and_persistent f < flag_limit)%N.
-Proof. intros f o H. split; [apply apply_op_closed|apply and_persistent_closed]; exact H. Qed.
+Proof. exact C08_flags_domain_closed_proof. Qed.
 Print Assumptions C08_flags_domain_closed.
 
 Theorem C08_flags_stored_in_domain :
   forall ops k f, kfind k (kf0 (exec0 init0 ops)) = Some f -> (f < flag_limit)%N.
-Proof. intros ops k f H. eapply dom_find; [apply (exec0_dom ops init0); exact (Forall_nil _)|exact H]. Qed.
+Proof. exact C08_flags_stored_in_domain_proof. Qed.
 Print Assumptions C08_flags_stored_in_domain.
 
 (* every Set makes its reader true, every Del / opposite Set makes it false (all 22 ops, every word) *)
@@ -377,10 +329,7 @@ Print Assumptions C08_flags_persistent_readers.
 (* an op changes nothing outside its own group of bits *)
 Theorem C08_flags_frame :
   forall f o, (f < flag_limit)%N -> N.ldiff (apply_flag_op f o) (group o) = N.ldiff f (group o).
-Proof.
-  intros f o H. pose proof (for_all_words _ frame_all f H) as F. unfold frame_b in F. rewrite forallb_forall in F.
-  apply N.eqb_eq. apply F. apply all_ops_complete.
-Qed.
+Proof. exact C08_flags_frame_proof. Qed.
 Print Assumptions C08_flags_frame.
 
 Example flags_readers_example :
@@ -392,10 +341,6 @@ Proof. vm_compute. repeat split. Qed.
 
 (* ---- non-vacuity ---- *)
 (* a sequence with stages, checkpoints, reverts, tombstones, flags *)
-Definition nv_ops : list op :=
-  [OSet [1] [97; 97] [SetKeyLocked]; OStaging; OCheckpoint; OSet [1] [98; 98; 98] []; OSet [2] [] [];
-   OFlags [3] [SetPresumeKeyNotExists]; OCheckpoint; OSet [2] [99] []; ORevert 1%nat; OGet [2]; ORevert 0%nat;
-   OGet [1]; OSnapGet [1]; OIterFlags false [] []; OCleanup 1%nat; OLen; OSize].
 Example nv_outputs :
   run0 init0 nv_ops =
     [RUnit; RNat 1; RNat 0; RUnit; RUnit; RUnit; RNat 1; RUnit; RUnit; RVal (Some []); RUnit;
